@@ -19,6 +19,7 @@ import (
 	"math/big"
 	"os"
 	"os/exec"
+	"reflect"
 	"strconv"
 	"strings"
 	"sync"
@@ -260,12 +261,59 @@ func yamlLayout(fr *frame) (types.Type, yamlNodeLayout) {
 	return nt, l
 }
 
-func yamlTypeError(fr *frame, line value, msg string) value {
-	return mkError(fr, concatStr(concatStr("yaml: unmarshal errors:\n  line ", sprint(fr, []value{iface{t: types.Typ[types.Int], v: line}}, false)), ": "+msg))
+// yamlDec: one Decode call (yaml.v3's decoder): type errors are collected and decoding continues; an error
+// returned by an Unmarshaler (other than a *yaml.TypeError) aborts the call and is returned as it is.
+type yamlDec struct {
+	terrors []value // strings (possibly ropes)
 }
 
-// yamlDecode models d.unmarshal(n, out) for out = *target (target is a non-nil pointer).
+func mkYamlTypeError(fr *frame, msgs []value) value {
+	pkg := fr.i.prog.ImportedPackage(yamlPkg)
+	t := pkg.Type("TypeError").Object().Type()
+	return iface{t: types.NewPointer(t), v: newPtr(structure{append([]value{}, msgs...)})}
+}
+
+func (d *yamlDec) terror(fr *frame, line value, msg string) {
+	d.terrors = append(d.terrors, concatStr(concatStr("line ", sprint(fr, []value{iface{t: types.Typ[types.Int], v: line}}, false)), ": "+msg))
+}
+
+// yamlDecode models (*yaml.Node).Decode: d.unmarshal(n, *target) in a fresh decoder.
 func yamlDecode(fr *frame, node *value, target *value, tt types.Type) value {
+	d := &yamlDec{}
+	if hard := d.unmarshal(fr, node, target, tt); hard != nil {
+		return hard
+	}
+	if len(d.terrors) > 0 {
+		return mkYamlTypeError(fr, d.terrors)
+	}
+	return nilError()
+}
+
+// yaml struct field names: `yaml:"name,flags"`, "-" = skipped, default = lower-cased field name
+func yamlFieldName(st *types.Struct, i int) (string, bool) {
+	f := st.Field(i)
+	if !f.Exported() {
+		return "", false
+	}
+	tag := reflect.StructTag(st.Tag(i)).Get("yaml")
+	name := tag
+	if k := strings.IndexByte(tag, ','); k >= 0 {
+		name = tag[:k]
+		if strings.Contains(tag[k:], "inline") {
+			panic(engineError{"yaml model: inline struct fields are outside the model"})
+		}
+	}
+	if name == "-" {
+		return "", false
+	}
+	if name == "" {
+		name = strings.ToLower(f.Name())
+	}
+	return name, true
+}
+
+// unmarshal returns a non-nil error value only for a hard failure (yaml.v3's fail()).
+func (d *yamlDec) unmarshal(fr *frame, node *value, target *value, tt types.Type) value {
 	_, lay := yamlLayout(fr)
 	if node == nil {
 		panic(targetRuntimePanic("nil pointer dereference (*yaml.Node)"))
@@ -280,7 +328,7 @@ func yamlDecode(fr *frame, node *value, target *value, tt types.Type) value {
 		if asInt64(fr.i.ex.concInt((*tgt).(structure)[lay.kind], "yaml.Node.Kind")) == 16 {
 			panic(engineError{"yaml model: alias of an alias"})
 		}
-		return yamlDecode(fr, tgt, target, tt)
+		return d.unmarshal(fr, tgt, target, tt)
 	}
 	if kind == 1 { // DocumentNode
 		panic(engineError{"yaml model: document nodes are outside the model"})
@@ -305,7 +353,19 @@ func yamlDecode(fr *frame, node *value, target *value, tt types.Type) value {
 			}
 			// out is addressable: does *ot implement UnmarshalYAML?
 			if r, ok := callMethod2(fr, types.NewPointer(ot), out, "UnmarshalYAML", node); ok {
-				return r
+				// callUnmarshaler: a *yaml.TypeError is merged, any other error aborts the decode
+				if e, isIface := r.(iface); isIface && e.t != nil {
+					if pt, ok := e.t.(*types.Pointer); ok && pt.Elem().String() == yamlPkg+".TypeError" {
+						if ep, ok := e.v.(*value); ok && ep != nil {
+							if msgs, ok := (*ep).(structure)[0].([]value); ok {
+								d.terrors = append(d.terrors, msgs...)
+							}
+						}
+						return nil
+					}
+					return r
+				}
+				return nil
 			}
 			if !again {
 				break
@@ -313,24 +373,98 @@ func yamlDecode(fr *frame, node *value, target *value, tt types.Type) value {
 		}
 		target, tt = out, ot
 	}
-	// no Unmarshaler: only the scalar -> int and null cases are modelled
 	if tag == "!!null" {
 		switch tt.Underlying().(type) {
 		case *types.Pointer, *types.Slice, *types.Map, *types.Interface:
 			*target = zero(tt)
 		}
-		return nilError()
+		return nil
 	}
-	if b, ok := tt.Underlying().(*types.Basic); ok && b.Info()&types.IsInteger != 0 && kind == 8 {
-		val := fr.i.ex.concStr(n[lay.value])
-		if tag == "!!int" {
-			plain := strings.ReplaceAll(val, "_", "")
-			if x, err := strconv.ParseInt(plain, 0, 64); err == nil {
-				*target = mkInt(b.Kind(), uint64(x))
-				return nilError()
+	val := func() string { return fr.i.ex.concStr(n[lay.value]) }
+	describe := func() string {
+		if kind == 8 {
+			return tag + " `" + val() + "`"
+		}
+		return tag
+	}
+	switch u := tt.Underlying().(type) {
+	case *types.Basic:
+		switch {
+		case kind != 8:
+			// mapping / sequence into a scalar
+		case u.Info()&types.IsInteger != 0:
+			if tag == "!!int" {
+				plain := strings.ReplaceAll(val(), "_", "")
+				if x, err := strconv.ParseInt(plain, 0, 64); err == nil {
+					*target = mkInt(u.Kind(), uint64(x))
+					return nil
+				}
+			}
+		case u.Kind() == types.String:
+			if tag == "!!str" || tag == "!!int" || tag == "!!float" || tag == "!!bool" {
+				// the resolved scalar's text (a custom-tagged scalar decodes as its text too; binary and timestamps are outside the vocabulary)
+				*target = n[lay.value]
+				return nil
+			}
+			if !strings.HasPrefix(tag, "!!") {
+				*target = n[lay.value]
+				return nil
+			}
+		case u.Kind() == types.Bool:
+			if tag == "!!bool" {
+				switch strings.ToLower(val()) {
+				case "true":
+					*target = true
+					return nil
+				case "false":
+					*target = false
+					return nil
+				}
 			}
 		}
-		return yamlTypeError(fr, n[lay.line], "cannot unmarshal "+tag+" `"+val+"` into "+tt.String())
+		d.terror(fr, n[lay.line], "cannot unmarshal "+describe()+" into "+tt.String())
+		return nil
+	case *types.Struct:
+		if kind != 4 { // not a mapping
+			d.terror(fr, n[lay.line], "cannot unmarshal "+describe()+" into "+tt.String())
+			return nil
+		}
+		content, _ := n[lay.content].([]value)
+		st := (*target).(structure)
+		seen := map[string]value{}
+		for i := 0; i+1 < len(content); i += 2 {
+			kn, _ := content[i].(*value)
+			if kn == nil {
+				panic(targetRuntimePanic("nil pointer dereference (yaml mapping key)"))
+			}
+			ks := (*kn).(structure)
+			if asInt64(fr.i.ex.concInt(ks[lay.kind], "yaml.Node.Kind")) != 8 {
+				d.terror(fr, ks[lay.line], "cannot unmarshal "+fr.i.ex.concStr(ks[lay.tag])+" into string")
+				continue
+			}
+			key := fr.i.ex.concStr(ks[lay.value])
+			if first, dup := seen[key]; dup {
+				// reported by the parser of this yaml.v3 version when the document is read
+				return mkError(fr, concatStr(concatStr(concatStr("yaml: line ", sprint(fr, []value{iface{t: types.Typ[types.Int], v: ks[lay.line]}}, false)), ": mapping key \""+key+"\" already defined at line "),
+					sprint(fr, []value{iface{t: types.Typ[types.Int], v: first}}, false)))
+			}
+			seen[key] = ks[lay.line]
+			found := -1
+			for f := 0; f < u.NumFields(); f++ {
+				if name, ok := yamlFieldName(u, f); ok && name == key {
+					found = f
+				}
+			}
+			if found < 0 {
+				d.terror(fr, ks[lay.line], "field "+key+" not found in type "+tt.String()) // KnownFields(true) everywhere in yardl
+				continue
+			}
+			vn, _ := content[i+1].(*value)
+			if hard := d.unmarshal(fr, vn, &st[found], u.Field(found).Type()); hard != nil {
+				return hard
+			}
+		}
+		return nil
 	}
 	panic(engineError{"yaml model: decoding into " + tt.String() + " without an UnmarshalYAML method is outside the model"})
 }
